@@ -1,7 +1,7 @@
 /-
   C12 — EDNS0 ends at the proxy; ECS reveals only a truncated client prefix.
   Theorems over `Router.handle`, `Router.reqMsg`, `Router.makeECS` for every query, rule list, client
-  address and upstream reply (at most one OPT per message, as RFC 6891 requires and the property states).
+  address and upstream reply (any number of OPT records in any section: `dnsmsg.RemoveEDNS0` removes them all).
 -/
 import MosVerif.Props.C12Pins
 import MosVerif.Lemmas.RouterBasic
@@ -11,79 +11,68 @@ import MosVerif.Model.RouterIO
 namespace MosVerif.C12
 open MosVerif.Wire MosVerif.Router
 
-def queryHasOpt (m : Msg) : Bool := m.additionals.any (fun r => r.rtype == typeOPT)
+/-- "the query contained an OPT record": in ANY section (`queryOpt(m) != nil`) -/
+def queryHasOpt (m : Msg) : Bool := queryHasOptAny m
 
-/-- every upstream reply carries at most one OPT record (RFC 6891 6.1.1) -/
-def UpsOneOpt (env : Env) : Prop :=
-  ∀ (u : Nat) (resp : Msg), env.ups[u]? = some (UpOutcome.reply resp) → countOpt resp.additionals ≤ 1
+theorem queryHasOpt_iff (m : Msg) :
+    queryHasOpt m = (m.answers ++ m.authorities ++ m.additionals).any (fun r => r.rtype == typeOPT) :=
+  (queryAny_eq m).symm
 
 theorem countOpt_nil : countOpt [] = 0 := rfl
 
 theorem countOpt_newEDNS0 (size : Nat) (d : Bytes) : countOpt [newEDNS0 size d] = 1 := by
   simp [countOpt, newEDNS0, isOptB]
 
-/-- what `handleReq` returns never carries an OPT record: it is either a locally built empty
-    response or an upstream reply from which the (single) OPT was removed -/
-theorem handleReq_no_opt (env : Env) (q : Question) (h : UpsOneOpt env) :
-    countOpt (handleReq env q).1.additionals = 0 := by
-  unfold handleReq
-  split
-  · rfl
-  · split
-    · rfl
-    · split
-      · rfl
-      · split
-        · split
-          · split
-            · rename_i u _ _ _ _ _ resp hup _
-              simp only [removeEDNS0]
-              rw [countOpt_pop]
-              have := h u resp hup
-              omega
-            · rfl
-          · rfl
-        · rfl
+/-- ★ `dnsmsg.RemoveEDNS0`: whatever the upstream sent — any number of OPT records, in any section — nothing of
+    it is left; every other record stays, in order (`relayed` is the specification's "everything but OPT"). -/
+theorem stripOpt_spec (x : Msg) :
+    RouterIO.optCount (stripOpt x) = 0 ∧ (stripOpt x).answers = RouterIO.relayed x.answers ∧
+      (stripOpt x).authorities = RouterIO.relayed x.authorities ∧
+      (stripOpt x).additionals = RouterIO.relayed x.additionals ∧
+      (stripOpt x).hdr = x.hdr ∧ (stripOpt x).questions = x.questions :=
+  ⟨stripOpt_noOpt x, rfl, rfl, rfl, rfl, rfl⟩
 
-/-- ★ The answer to a supported query contains exactly one OPT record iff the query contained one,
-    and none otherwise — on every path (no rule, reject, forward, upstream failure). -/
+/-- what `handleReq` returns never carries an OPT record, in no section: it is either a locally built empty
+    response or an upstream reply from which every OPT was removed — no hypothesis on the upstream -/
+theorem handleReq_no_opt (env : Env) (q : Question) : RouterIO.optCount (handleReq env q).1 = 0 := by
+  rw [← routed_fst]
+  exact routed_noOpt env q
+
+theorem supported_notImpl (m : Msg) (q0 : Question) (hq : m.questions = [q0])
+    (hs : m.hdr.response = false ∧ m.hdr.rd = true ∧ m.hdr.opcode = 0) : notImpl m = false := by
+  simp [notImpl, hs.1, hs.2.1, hs.2.2, hq]
+
+/-- ★ The answer to a supported query contains exactly one OPT record (counting ALL sections) iff the query
+    contained one (in any section), and none otherwise — on every path (no rule, reject, forward, upstream
+    failure, relayed reply), whatever the upstream replied. -/
 theorem resp_opt_iff (env : Env) (m : Msg) (q0 : Question) (hq : m.questions = [q0])
-    (hs : m.hdr.response = false ∧ m.hdr.rd = true ∧ m.hdr.opcode = 0) (h : UpsOneOpt env) :
-    countOpt (handle env m).resp.additionals = if queryHasOpt m then 1 else 0 := by
-  unfold handle
-  simp only [hs.1, hs.2.1, hs.2.2, hq, List.length_cons, List.length_nil]
-  simp only [Bool.not_true, Bool.or_self, bne_self_eq_false, Bool.false_eq_true, ↓reduceIte, Nat.zero_add]
-  have h0 := handleReq_no_opt env { q0 with name := lowerName q0.name } h
-  unfold queryHasOpt
-  by_cases hopt : (m.additionals.any fun r => r.rtype == typeOPT) = true
-  · simp only [hopt, ↓reduceIte, addOrReplaceOpt]
-    unfold countOpt at *
-    rw [List.countP_append]
-    have := countOpt_pop (handleReq env { q0 with name := lowerName q0.name }).1.additionals
-    unfold countOpt at this
-    rw [this, h0]
-    simp [newEDNS0, isOptB]
-  · simp only [hopt, Bool.false_eq_true, ↓reduceIte, removeEDNS0]
-    rw [countOpt_pop, h0]
+    (hs : m.hdr.response = false ∧ m.hdr.rd = true ∧ m.hdr.opcode = 0) :
+    RouterIO.optCount (handle env m).resp = if queryHasOpt m then 1 else 0 := by
+  obtain ⟨h1, _⟩ := handle_impl env m q0 (supported_notImpl m q0 hq hs) hq
+  rw [h1]
+  exact (optFix_opt m _ (handleReq_no_opt env _)).1
 
-/-- ★ … and that OPT record is the proxy's own: UDP size 1200, TTL 0 (no extended rcode, version 0,
-    DO clear) and no options — nothing of the upstream's or the client's OPT is relayed. -/
+/-- ★ … and that OPT record is the proxy's own, in the additional section: UDP size 1200, TTL 0 (no extended
+    rcode, version 0, DO clear) and no options — nothing of the upstream's or the client's OPT is relayed. -/
 theorem resp_opt_content (env : Env) (m : Msg) (q0 : Question) (hq : m.questions = [q0])
-    (hs : m.hdr.response = false ∧ m.hdr.rd = true ∧ m.hdr.opcode = 0) (h : UpsOneOpt env)
+    (hs : m.hdr.response = false ∧ m.hdr.rd = true ∧ m.hdr.opcode = 0)
     (hopt : queryHasOpt m = true) :
     (handle env m).resp.additionals.filter isOptB = [⟨[], typeOPT, 1200, 0, .raw []⟩] := by
-  unfold handle
-  simp only [hs.1, hs.2.1, hs.2.2, hq, List.length_cons, List.length_nil]
-  simp only [Bool.not_true, Bool.or_self, bne_self_eq_false, Bool.false_eq_true, ↓reduceIte, Nat.zero_add]
-  unfold queryHasOpt at hopt
-  simp only [hopt, ↓reduceIte, addOrReplaceOpt, List.filter_append]
-  have h0 := handleReq_no_opt env { q0 with name := lowerName q0.name } h
-  have h1 := countOpt_pop (handleReq env { q0 with name := lowerName q0.name }).1.additionals
-  rw [h0] at h1
-  unfold countOpt at h1
-  rw [List.countP_eq_length_filter, Nat.zero_sub, List.length_eq_zero_iff] at h1
+  obtain ⟨h1, _⟩ := handle_impl env m q0 (supported_notImpl m q0 hq hs) hq
   rw [h1]
-  simp [newEDNS0, isOptB, udpSize, Facts.udpSize]
+  exact (optFix_opt m _ (handleReq_no_opt env _)).2 hopt
+
+/-- ★ The answer and authority sections of the response never contain an OPT record. -/
+theorem resp_no_opt_outside_additional (env : Env) (m : Msg) (q0 : Question) (hq : m.questions = [q0])
+    (hs : m.hdr.response = false ∧ m.hdr.rd = true ∧ m.hdr.opcode = 0) :
+    (handle env m).resp.answers.filter isOptB = [] ∧ (handle env m).resp.authorities.filter isOptB = [] := by
+  obtain ⟨h1, _⟩ := handle_impl env m q0 (supported_notImpl m q0 hq hs) hq
+  rw [h1]
+  have h0 := handleReq_no_opt env ⟨lowerName q0.name, q0.qtype, q0.qclass⟩
+  rw [optCount_parts] at h0
+  simp only [fixHdr_answers, optFix_answers, fixHdr_authorities, optFix_authorities]
+  show List.filter (fun (x : Resource) => x.rtype == typeOPT) _ = [] ∧ List.filter (fun (x : Resource) => x.rtype == typeOPT) _ = []
+  exact ⟨List.length_eq_zero_iff.mp (by omega), List.length_eq_zero_iff.mp (by omega)⟩
 
 /-- ★ A response never contains an OPT record unless the query did: also for unsupported queries. -/
 theorem unsupported_no_opt (env : Env) (m : Msg)
@@ -154,31 +143,26 @@ theorem upstream_query_wire_opt (env : Env) (q : Question) (hq : questionWF q = 
   exact ⟨wire, _, h1, h2, by rw [reqMsg_eq]; rfl⟩
 
 /-- ★ The EDNS0 judgement of the executable specification (client side: OPT iff the query had one, and then the
-    proxy's own; upstream side: one OPT, expected ECS data) accepts the model on every path, for every decoded
-    query — the C12 face of `C03.model_meets_spec`, under this file's `UpsOneOpt`. -/
-theorem edns0_meets_spec (env : Env) (m : Msg) (hm : msgWF m = true) (hrej : ∀ ru ∈ env.rules, ru.reject < 16)
-    (hups : UpsOneOpt env) :
+    proxy's own; relayed sections = the upstream's minus OPT; upstream side: one OPT, expected ECS data) accepts
+    the model on every path, for every decoded query and EVERY upstream reply — the C12 face of
+    `C03.model_meets_spec`. -/
+theorem edns0_meets_spec (env : Env) (m : Msg) (hm : msgWF m = true) (hrej : ∀ ru ∈ env.rules, ru.reject < 16) :
     RouterIO.spec env m ⟨(handle env m).resp, (handle env m).forwards⟩ = "ok" :=
-  spec_model env m (msgWF_parts hm).2.1 hrej (fun u resp h => Nat.le_succ_of_le (hups u resp h))
+  spec_model env m (msgWF_parts hm).2.1 hrej
 
-/-- `UpsOneOpt` is not the weakest condition: a second OPT in the relayed reply is removed by the EDNS0 fix-up of
-    `handleReqMsg` (`PopEDNS0` before the proxy's own OPT is attached) — two are harmless, three are not
-    (see the examples next to `C03.model_meets_spec`). -/
-theorem two_opts_removed (m x : Msg) (hx : countOpt x.additionals ≤ 2) :
-    countOpt (optFix m (removeEDNS0 x)).additionals = if queryHasOpt m then 1 else 0 := by
-  have h1 : countOpt (removeEDNS0 x).additionals ≤ 1 := by
-    simp only [removeEDNS0]; rw [countOpt_pop]; omega
-  have := (optFix_opt m (removeEDNS0 x) h1).1
-  rw [optCount_eq] at this
-  exact this
+/-- a reply full of OPT records, relayed: all of them are removed, then the fix-up attaches the proxy's own iff
+    the query had one -/
+theorem all_opts_removed (m x : Msg) :
+    RouterIO.optCount (optFix m (stripOpt x)) = if queryHasOpt m then 1 else 0 :=
+  (optFix_opt m (stripOpt x) (stripOpt_noOpt x)).1
 
-/-- non-vacuity of `UpsOneOpt`, and a concrete v4 witness -/
-example : UpsOneOpt ⟨true, .v4 [10, 1, 2, 3], [], [.fail]⟩ := by
-  unfold UpsOneOpt
-  intro u resp h
-  cases u with
-  | zero => simp at h
-  | succ n => simp at h
+/-- non-vacuity: OPT records in all three sections of a reply, a query whose only OPT is in its authority
+    section, and a concrete v4 witness -/
+example : stripOpt ⟨emptyHdr, [], [⟨[], 41, 1, 0, .raw []⟩, ⟨[1, 97], 1, 1, 60, .a [1, 2, 3, 4]⟩],
+      [⟨[], 41, 2, 0, .raw []⟩], [⟨[1, 120], 16, 1, 5, .raw []⟩, ⟨[], 41, 3, 0, .raw []⟩, ⟨[], 41, 4, 0, .raw []⟩]⟩
+    = ⟨emptyHdr, [], [⟨[1, 97], 1, 1, 60, .a [1, 2, 3, 4]⟩], [], [⟨[1, 120], 16, 1, 5, .raw []⟩]⟩ := by decide
+example : queryHasOpt ⟨emptyHdr, [⟨[1, 97], 1, 1⟩], [], [⟨[], 41, 4096, 0, .raw []⟩], []⟩ = true := by decide
+example : queryHasOpt ⟨emptyHdr, [⟨[1, 97], 1, 1⟩], [], [], [⟨[1, 120], 16, 1, 5, .raw []⟩]⟩ = false := by decide
 example : makeECS (.v4 [192, 0, 2, 77]) = some [0, 8, 0, 7, 0, 1, 24, 0, 192, 0, 2] := by decide
 
 end MosVerif.C12
